@@ -367,8 +367,67 @@ class Body:
                         d[pl['l']].append((b, len(blk['stmts']), 'call', t))
                     elif 'deref' not in [e for e in pl['p'] if isinstance(e, str)]:
                         d[pl['l']].append((b, len(blk['stmts']), 'pcall', t))
+            # clobbers: a `&mut local` that escapes into a closure or into a call that may write through it
+            for (l, pt) in self._mut_escapes():
+                d[l].append((pt[0], pt[1], 'clobber', None))
             self._defs = d
         return self._defs
+
+    NON_ESCAPING = ('lock_api::condvar::Condvar::wait', 'parking_lot::Condvar::wait', 'std::mem::drop',
+                    'std::iter::Iterator::next', 'std::iter::DoubleEndedIterator::next_back')
+
+    def _mut_escapes(self):
+        """[(local, point)] where the value of `local` may be changed through a mutable borrow that was handed to a
+        closure or to a non-transparent call"""
+        borrow = {}   # temp -> borrowed local
+        for b in range(self.nb):
+            if self.is_cleanup(b):
+                continue
+            for s in self.blocks[b]['stmts']:
+                if s['k'] != 'assign' or s['place']['p']:
+                    continue
+                rv = s['rv']
+                if rv['k'] == 'ref' and rv['mut'] and not rv['place']['p']:
+                    borrow[s['place']['l']] = rv['place']['l']
+        changed = True
+        while changed:
+            changed = False
+            for b in range(self.nb):
+                if self.is_cleanup(b):
+                    continue
+                for s in self.blocks[b]['stmts']:
+                    if s['k'] != 'assign' or s['place']['p'] or s['place']['l'] in borrow:
+                        continue
+                    rv = s['rv']
+                    src = None
+                    if rv['k'] == 'use' and 'place' in rv['op'] and not rv['op']['place']['p']:
+                        src = rv['op']['place']['l']
+                    elif rv['k'] == 'ref' and rv['mut'] and rv['place']['p'] == ['deref']:
+                        src = rv['place']['l']
+                    if src is not None and src in borrow:
+                        borrow[s['place']['l']] = borrow[src]
+                        changed = True
+        out = []
+        if not borrow:
+            return out
+        for b in range(self.nb):
+            if self.is_cleanup(b):
+                continue
+            blk = self.blocks[b]
+            for i, s in enumerate(blk['stmts']):
+                if s['k'] == 'assign' and s['rv']['k'] == 'aggr' and 'closure' in s['rv']:
+                    for o in s['rv']['ops']:
+                        if 'place' in o and not o['place']['p'] and o['place']['l'] in borrow:
+                            out.append((borrow[o['place']['l']], (b, i)))
+            t = blk['term']
+            if t and t['k'] == 'call':
+                c = t.get('callee') or ''
+                if c in TRANSPARENT or c in INDEX_CALLS or any(c.startswith(x) or c.endswith(x.split('::', 1)[-1]) for x in self.NON_ESCAPING):
+                    continue
+                for o in t['args']:
+                    if 'place' in o and not o['place']['p'] and o['place']['l'] in borrow:
+                        out.append((borrow[o['place']['l']], (b, len(blk['stmts']))))
+        return out
 
     def reaching_defs(self, local, point):
         """definitions of `local` (whole or partial) that may reach `point` (executed strictly before it).
@@ -634,7 +693,14 @@ class Origin:
         ops = s['rv']['ops']
         if idx >= len(ops):
             return ('upvar', closure_name, idx, name)
-        return pbody.origin.operand(ops[idx], (bb, i))
+        o = ops[idx]
+        if 'place' in o and not o['place']['p']:
+            # `&mut local` captured: the closure may run several times and change it: opaque cell of the parent
+            for d in pbody.defs().get(o['place']['l'], []):
+                if d[2] == 'whole' and d[3]['rv']['k'] == 'ref' and d[3]['rv']['mut'] and not d[3]['rv']['place']['p']:
+                    l = d[3]['rv']['place']['l']
+                    return ('var', pbody.name, l, pbody.local_name(l))
+        return pbody.origin.operand(o, (bb, i))
 
     def local(self, l, point, depth=0, field=None):
         """term of local `l` just before `point`. With field=f: term of `l.f` if a more specific definition
@@ -702,6 +768,8 @@ class Origin:
             return self.rvalue(payload['rv'], point, depth + 1)
         if kind == 'call':
             return self.call(payload, point, depth + 1)
+        if kind == 'clobber':
+            return ('var', self.body.name, l, self.body.local_name(l))
         if kind in ('partial', 'pcall'):
             # value of the local before this statement, with one path overwritten
             basev = self.local(l, point, depth + 1)
